@@ -838,6 +838,8 @@ func C01(c *core.Ctx) {
 	c.Set("schema_paths", len(sps))
 	c.Set("enumerated_space", map[string]int{"kind_cases": nKind, "fault_cases": nFault})
 	c.Set("rule", "a case is (schema path, YAML node kind, position of the document in the load), a (missing-file set, option set) pair, a YAML alias/cycle shape, or a seeded byte mutation; every case runs in a child process; distinct by description")
+	// ---- the pipeline as a stack machine: recorded phase events of real loads replayed through Pipeline.tla
+	c01Pipeline(c)
 }
 
 func sigTail(cs c01Case) string {
